@@ -96,6 +96,8 @@ func runC18(c *Ctx) {
 	c18V1ExceptPairing(c)
 	c18DisableScope(c, pk)
 	c18DisableAnyMatch(c, pk)
+	c18PrefixSuffixIndependent(c, pk)
+	c18SweepScansAll(c, pkI)
 	c18PerVisitState(c, pk)
 	c18AccumulatorCarry(c, pk)
 	ruleKeyInjective(c, "KEY-INJECTIVE", "private/bufpkg/bufimage/bufimagemodify/internal")
